@@ -40,6 +40,7 @@ def jobs(tier):
     add("BS", "B", country="generic")
     add("BS", "B", country="es")
     add("BBS", "B", schedule={"2020": "fifo", "2021": "hifo"}, years=(2020, 2021))
+    add("BS", "B", schedule={"2019": "hifo"}, config_schedule=True)  # [accounting_methods] section with a single year
     add("BBS", "B", uid="same")  # partial fills sharing one order id: several transactions of one asset with the same unique id
     if tier == "thorough":
         add("BBS", "B", filt="from", method="lifo")
@@ -148,7 +149,8 @@ def run(S, spec):
             cds[asset] = compute_tax(cfg, engine, inps[asset])
         except RP2ValueError:
             return "error"
-    names = {1970: list(spec["schedule"].values())[0]} if len(spec["schedule"]) == 1 else {int(y): m for y, m in spec["schedule"].items()}
+    # -m <method> on the command line gives {1970: method}; an [accounting_methods] section gives its own years
+    names = {1970: list(spec["schedule"].values())[0]} if len(spec["schedule"]) == 1 and not spec.get("config_schedule") else {int(y): m for y, m in spec["schedule"].items()}
     _reset_class_state()
     lang = spec.get("lang") or reportlib.LANG[spec["country"]]
     rec, err = reportlib.generate(S, "rp2_full_report", cfg.country, cds, names, cfg.from_date, cfg.to_date, lang=lang)
@@ -475,7 +477,8 @@ def check_legend(S, rec, spec, from_date, to_date):
     got = rows[r].get(1)
     sched = spec["schedule"]
     if len(sched) == 1:
-        S.expect(got == list(sched.values())[0].upper(), "C13", "legend-method", "Legend states method %r" % (got,))
+        m = list(sched.values())[0].upper()
+        S.expect(isinstance(got, str) and m in got and not any(o in got for o in ("FIFO", "LIFO", "HIFO", "LOFO") if o != m), "C13", "legend-method", "Legend states method %r" % (got,))
     else:
         for y, m in sched.items():
             S.expect(isinstance(got, str) and ("%s:%s" % (y, m.upper())) in got, "C13", "legend-method", "Legend states %r for schedule %s" % (got, sched))
